@@ -104,6 +104,7 @@ func (r *standardRenderer) stop() {
 	// Stop the renderer before acquiring the mutex to avoid a deadlock.
 	r.once.Do(func() {
 		r.done <- struct{}{}
+		r.stopTicker()
 	})
 
 	// flush locks the mutex
@@ -133,6 +134,7 @@ func (r *standardRenderer) kill() {
 	// Stop the renderer before acquiring the mutex to avoid a deadlock.
 	r.once.Do(func() {
 		r.done <- struct{}{}
+		r.stopTicker()
 	})
 
 	r.mtx.Lock()
@@ -143,12 +145,21 @@ func (r *standardRenderer) kill() {
 	r.execute("\r")
 }
 
+// stopTicker stops the frame ticker. It is called by whoever stopped the
+// listener, after the listener has taken the stop signal: were the listener
+// to stop the ticker itself, it could do so after a later start() has
+// already reset it, and the restarted renderer would never tick again.
+func (r *standardRenderer) stopTicker() {
+	if r.ticker != nil {
+		r.ticker.Stop()
+	}
+}
+
 // listen waits for ticks on the ticker, or a signal to stop the renderer.
 func (r *standardRenderer) listen() {
 	for {
 		select {
 		case <-r.done:
-			r.ticker.Stop()
 			return
 
 		case <-r.ticker.C:
